@@ -29,8 +29,13 @@ txt = f"""## 12. Seeded changes: which checks catch which
 Each change below was written by a fresh sub-agent that was given only the text
 of one property and its own scratch worktree of `/repo` (nothing from
 `/verif`), with the request for a change that still passes the unit tests and
-needs something specific to manifest; a second round was told what the first
-round had produced and asked for different functions and code paths. Every
+needs something specific to manifest. There were four rounds (names without a
+round tag, `-r2-`, `-r3-`, `-r4-`): each later round was told what the earlier
+ones had produced and asked for other functions and code paths; the third was
+steered towards silent wrong data behind unusual but legitimate combinations,
+the fourth towards state that survives between calls or objects (caches,
+reused buffers, in-place modification of caller arguments, second invocations,
+error paths that swallow failures). Every
 change was then confirmed here (`tools/seed_eval.py`): the patch applies to
 `/repo` HEAD, the unit tests still give 340 passed / 2 failed, the author's
 demonstration passes on the clean tree and fails on the patched one. It is kept
